@@ -325,7 +325,9 @@ def exec_corpus(ctx, h):
         for t in ("GSUB", "GPOS", "GDEF"):
             if t in font_b:
                 font_b[t]
-        out_b, _ = compile_font(font_b, {"mode": False, "plan": [], "tail": "ok", "have_hb": True, "level": 0, "twice": False, "lazy": None}, {}, {})
+        out_b, _ = compile_font(font_b, {"mode": False, "plan": [], "tail": "ok", "have_hb": True, "level": cfg["level"], "twice": False, "lazy": None}, {}, {})
+        if isinstance(out_b, tuple):
+            probes["raised.also_pure_python"] = 1
         if not isinstance(out_b, tuple):
             _fail(res, "fallback-fails-where-pure-python-succeeds:" + out[1], "compiling the layout tables raised %s (%s) under this configuration although the pure-python packer serialises them" % (out[1], out[2]) + where, exc=out[1])
         return res
@@ -383,6 +385,13 @@ def exec_fea(ctx, h):
         probes["fea_rejected"] = 1
         return res
     out, out2, _ = build(cfg, probes, faults)
+    if isinstance(out, tuple) and cfg["level"] and not _required_but_absent(cfg, out):
+        # does compaction itself reject this input (an error, allowed) or only the fault-tolerant path?
+        same_level, _, _ = build(dict(base_cfg, level=cfg["level"]), {}, {})
+        if isinstance(same_level, tuple):
+            probes["raised.also_pure_python"] = 1
+            probes["raised." + out[1]] = 1
+            return res
     events.append([h["fea"], cfg["mode"], cfg["plan"], out[:2] if isinstance(out, tuple) else prng.bdigest(out)])
     res["states"].append("%s|%s|%s|%s" % (h["fea"], cfg["mode"], cfg["plan"], cfg["level"]))
     if _required_but_absent(cfg, out):
